@@ -1,8 +1,9 @@
 (* Props/C03.v — adding fixed-length units moves the instant by exactly that elapsed time.
    py_add_duration is regenerated from /repo/src/pendulum/helpers.py on every run (Gen/AddDuration.v). *)
-From Coq Require Import ZArith Bool.
+From Coq Require Import ZArith Bool List.
 From PV Require Import Lib.PyBase Spec.Cal Spec.Zone Spec.NativeDT Proofs.ZoneFacts Proofs.AddDurationFacts Proofs.C03Facts.
 From PV Require Import Gen.AddDuration Model.TzConvert.
+From PV Require Import Spec.TdFloat Model.FloatRoutes Proofs.FloatRoutesFacts Proofs.FloatRoutesFlocq.
 Open Scope Z_scope.
 
 (* the sign-aware carry normalisation of add_duration preserves the total, for all integers *)
@@ -51,3 +52,57 @@ Theorem naive_shifted_on_its_own_clock : forall W f hours minutes seconds us, wa
   if wall_in_range (W + total) then Ok (W + total, true) else Raise E_OverflowError.
 Proof. exact add_naive_fixed. Qed.
 Print Assumptions naive_shifted_on_its_own_clock.
+
+(* ------------------------------------------------------------------ the FLOAT route: dt + td, dt - td, td + dt with a plain datetime.timedelta
+   (Model/FloatRoutes.v: _add_timedelta_ / _subtract_timedelta -> add(seconds=td.total_seconds()) -> add_duration's float carry chain ->
+   timedelta(days=<float>, hours=<float>, minutes=<float>, seconds=<float>)).  N is the timedelta in integer microseconds, any sign.
+   The float premises are proved with Flocq (Proofs/FloatRoutesFlocq.v); the axioms listed are those of Coq's real numbers. *)
+
+(* the whole float computation (total_seconds, three float divmod carries, CPython's accum/modf/round-half-even) returns exactly N below 2^33 s *)
+Theorem float_carry_chain_exact : forall N, Z.abs N < 2 ^ 33 * 10 ^ 6 -> float_route_us (total_seconds N) = Ok N.
+Proof. exact float_chain_exact_proved. Qed.
+Print Assumptions float_carry_chain_exact.
+
+Theorem add_timedelta_moves_instant_exactly : forall z, wf_zone z = true -> forall W f N W' f', Z.abs N < 2 ^ 33 * 10 ^ 6 ->
+  add_timedelta z W f N = Ok (W', f') ->
+  (W', f') = render z (inst z W f + N) /\ inst z W' f' = inst z W f + N.
+Proof. exact add_timedelta_spec_proved. Qed.
+Print Assumptions add_timedelta_moves_instant_exactly.
+
+Theorem sub_timedelta_moves_instant_exactly : forall z, wf_zone z = true -> forall W f N W' f', Z.abs N < 2 ^ 33 * 10 ^ 6 ->
+  sub_timedelta z W f N = Ok (W', f') ->
+  (W', f') = render z (inst z W f - N) /\ inst z W' f' = inst z W f - N.
+Proof. exact sub_timedelta_spec_proved. Qed.
+Print Assumptions sub_timedelta_moves_instant_exactly.
+
+(* same result AND same exceptions as the integer route add(microseconds=N) *)
+Theorem add_timedelta_is_add_microseconds : forall z W f N, Z.abs N < 2 ^ 33 * 10 ^ 6 ->
+  add_timedelta z W f N = add_fixed z W f 0 0 0 N /\ sub_timedelta z W f N = add_fixed z W f 0 0 0 (- N).
+Proof. exact timedelta_is_add_microseconds_proved. Qed.
+Print Assumptions add_timedelta_is_add_microseconds.
+
+Theorem sub_timedelta_undoes_add_timedelta : forall z, wf_zone z = true -> forall W f N W' f', Z.abs N < 2 ^ 33 * 10 ^ 6 ->
+  wall_in_range (fst (render z (inst z W f))) = true ->
+  add_timedelta z W f N = Ok (W', f') -> sub_timedelta z W' f' N = Ok (render z (inst z W f)).
+Proof. exact sub_undoes_add_timedelta_proved. Qed.
+Print Assumptions sub_timedelta_undoes_add_timedelta.
+
+Theorem naive_plus_timedelta_shifted_on_its_own_clock : forall W f N, wall_in_range W = true -> Z.abs N < 2 ^ 33 * 10 ^ 6 ->
+  add_timedelta_naive W f N = (if wall_in_range (W + N) then Ok (W + N, true) else Raise E_OverflowError) /\
+  sub_timedelta_naive W f N = (if wall_in_range (W - N) then Ok (W - N, true) else Raise E_OverflowError).
+Proof. exact naive_timedelta_proved. Qed.
+Print Assumptions naive_plus_timedelta_shifted_on_its_own_clock.
+
+(* known finding: at |td| >= 2^33 s the float route is off by a microsecond while add(microseconds=N) is exact
+   (UTC, 2000-01-01T00:00:00 + timedelta(microseconds=8589934592000001); replayed on the implementation by the td-beyond-2-33 stream) *)
+Theorem add_timedelta_beyond_2_33_refuted :
+  let z := fixed_zone 0 in let N := 8589934592000001 in
+  exists W' f', wf_zone z = true /\ Z.abs N >= 2 ^ 33 * 10 ^ 6 /\ add_timedelta z W_2000 false N = Ok (W', f') /\
+    inst z W' f' = inst z W_2000 false + N + 1 /\ add_fixed z W_2000 false 0 0 0 N = Ok (W_2000 + N, false).
+Proof. exact add_timedelta_beyond_refuted. Qed.
+Print Assumptions add_timedelta_beyond_2_33_refuted.
+
+(* kernel evaluation of the float chain on the boundary family +-(2^k s +- j us), k <= 33, and the carries at 59/60/3599/3600/86399/86400 s ... *)
+Theorem float_carry_chain_boundary_family : forallb route_exactb boundary_family = true /\ (length boundary_family >= 1400)%nat.
+Proof. exact chain_boundary_family_evaluated. Qed.
+Print Assumptions float_carry_chain_boundary_family.
